@@ -38,13 +38,13 @@ def run(chk):
                       'values are small ints / strs / None / lists of them; batches have two elements',
                       'a rejected batch may keep any of its valid elements (alts), as the statement allows']
   # 1. the model: TLC proves the invariant and the action property on the intended semantics
-  mc = ['C03_list.cfg', 'C03_obj.cfg', 'C03_objp.cfg', 'C03_dict_cov.cfg', 'C03_dict.cfg', 'C03_dictp.cfg']
+  mc = ['C03_list.cfg', 'C03_obj_cov.cfg', 'C03_dict_cov.cfg', 'C03_obj.cfg', 'C03_objp.cfg', 'C03_dict.cfg', 'C03_dictp.cfg']
   if thorough:
     mc += ['C03_list_deep.cfg', 'C03_dict_deep.cfg', 'C03_obj_deep.cfg']
   cov = {}
   for cfg in mc:
     # per-action counts (-coverage) slow TLC down a lot: taken on the small configurations only
-    r = typedtree.model_check(chk, cfg, coverage=cfg in ('C03_list.cfg', 'C03_objp.cfg', 'C03_dict_cov.cfg'))
+    r = typedtree.model_check(chk, cfg, coverage=cfg in ('C03_list.cfg', 'C03_obj_cov.cfg', 'C03_dict_cov.cfg'))
     for a, (d, t) in (r.coverage or {}).items():
       cov[a] = cov.get(a, 0) + t
   chk.notes['model_action_coverage'] = dict(sorted(cov.items()))
